@@ -701,3 +701,7 @@ mod tests {
         );
     }
 }
+
+#[cfg(all(test, feature = "pendulum_project_ntpd_rs_verif"))]
+#[path = "../../../../verif/harness/ntp_proto/algorithm.rs"]
+mod verif_algorithm;
